@@ -27,7 +27,7 @@ CONSTANTS MaxLines, MaxLen, Emit
 VARIABLES doc, pos, groups, minidx, done
 vars == <<doc, pos, groups, minidx, done>>
 
-Chars == {"x", ";", " "}
+Chars == {"x", ";", " ", "\t"}
 RECURSIVE SeqsUpTo(_)
 SeqsUpTo(n) == IF n = 0 THEN {<<>>} ELSE LET S == SeqsUpTo(n - 1) IN S \cup {Append(s, c) : s \in {t \in S : Len(t) = n - 1}, c \in Chars}
 Lines == SeqsUpTo(MaxLen)
@@ -47,7 +47,7 @@ Spec == Init /\ [][Call]_vars
 
 -----------------------------------------------------------------------------
 Flat(s) == FoldLeft(LAMBDA a, b : a \o b, <<>>, s)
-LastNonBlank(l) == LET nb == {i \in 1..Len(l) : l[i] # " "} IN IF nb = {} THEN "0" ELSE l[CHOOSE i \in nb : \A j \in nb : j <= i]
+LastNonBlank(l) == LET nb == {i \in 1..Len(l) : l[i] \notin {" ", "\t"}} IN IF nb = {} THEN "0" ELSE l[CHOOSE i \in nb : \A j \in nb : j <= i]
 
 NoIndexUnderflow == minidx >= 1
 Progress == pos <= Len(doc) + 1 /\ (done => pos = Len(doc) + 1)
